@@ -18,6 +18,9 @@ class SubtotalSpec:
         self.add_at = B.idx_family(name + ".add", self.S, "n", n_elems)
         self.sub_at = B.idx_family(name + ".sub", self.S, "n", n_elems)
         self.seq = B.seq(self.S, self._stub, name + ".subtotals")
+        # a subtotal survives the validity gauntlet only if it references at least one valid
+        # element (contract of _Subtotals._iter_valid_subtotal_dicts, dimension_c.py)
+        B.assume_each(self.S, lambda s: self.n_add(s) + self.n_sub(s) >= 1, name + "!s")
 
     def _stub(self, s):
         return self.B.stub(
